@@ -1139,8 +1139,12 @@ class Engine:
                 if ok:
                     out.append(self.ev(run, node.elt, cfr))
             return out
-        # symbolic length: map/filter with the element expression evaluated at a generic index
+        # symbolic length: map/filter with the element expression evaluated at a generic index.  The element / filter expressions are
+        # evaluated lazily, so they must see the variables as they are NOW: the enclosing frame is snapshotted (a later rebinding such as
+        # `t_last = t` after `[... if track.end == t_last]` must not leak into the comprehension)
         from .models import symbolic_comprehension
+        snap = Frame(fr.info, dict(fr.locals), fr.closure, fr.modinfo, fr.self_cls)
+        cfr = Frame(fr.info, {}, snap, fr.modinfo, fr.self_cls)
         return symbolic_comprehension(self, run, node, g, items, cfr)
 
     # -- calls ------------------------------------------------------------
